@@ -67,6 +67,10 @@ pub struct LiveCase {
     /// table as it was while the target was stopped
     #[serde(default)]
     pub fd_churn: bool,
+    /// the thread-group leader exits on its own (zombie leader, other threads live on); the dump then
+    /// blames a live thread.  Only combined with the kernel's auxv and without the descriptor churner.
+    #[serde(default)]
+    pub leader_exit: bool,
 }
 
 fn protection_of(p: u8) -> u32 {
@@ -154,6 +158,8 @@ pub fn check_live(c: &LiveCase) -> Verdict {
         b.add_anon_at(ARENA + ARENA_SIZE, 1, 0, 0);
         synth = Some((phnum, phdr, exp));
     }
+    let leader_exit = c.leader_exit && c.parked % 4 > 0 && matches!(c.auxv, AuxvMode::Kernel) && !c.fd_churn;
+    b.spec.leader_exit = leader_exit;
     let spec = b.spec.clone();
     let t = match Target::spawn(&spec, scratch) {
         Ok(t) => t,
@@ -163,7 +169,7 @@ pub fn check_live(c: &LiveCase) -> Verdict {
         return Verdict::Inconclusive("target did not settle".into());
     }
     let pid = t.pid;
-    let blamed = if c.blamed_other && !parked.is_empty() { t.tid(parked[0]) } else { pid };
+    let blamed = if (c.blamed_other || leader_exit) && !parked.is_empty() { t.tid(parked[0]) } else { pid };
     let true_aux = crate::props::c01::true_auxv(pid);
     let direct = match &c.auxv {
         AuxvMode::Kernel => None,
@@ -259,7 +265,10 @@ pub fn check_live(c: &LiveCase) -> Verdict {
     // handles vs /proc/pid/fd
     let Some(hs) = d.handles.as_ref() else { bad!("handles:missing", "handle stream missing") };
     let mut want_h: Vec<(u64, String, u32)> = vec![];
-    if c.fd_churn {
+    if leader_exit {
+        // /proc/<pid>/fd of a zombie leader is not a usable ground truth: the handle stream is not judged
+        want_h = hs.iter().map(|h| (h.handle, h.object_name.clone().unwrap_or_default(), h.attributes)).collect();
+    } else if c.fd_churn {
         match stopped_table.lock().unwrap().clone() {
             Some(t) => want_h = t,
             None => return Verdict::Inconclusive("the before-resume hook did not fire".into()),
@@ -319,6 +328,12 @@ pub fn check_live(c: &LiveCase) -> Verdict {
         }
         _ => {
             // the kernel's auxv (or true direct values) lead to the real list, which the target printed
+            if leader_exit && d.dso.is_none() {
+                // the kernel serves no auxiliary vector for an exited leader: there is nothing the stream could be derived from
+                classes.push("zombie-leader:no-auxv-no-dso-stream".to_string());
+                let nt = true;
+                return Verdict::pass_c(if nt { Some(fp_json(c)) } else { None }, classes);
+            }
             let Some(dso) = d.dso.as_ref() else { bad!("dso:missing", "no DSO stream for a dynamically linked target") };
             let Some((ver, brk, ldbase, dynamic)) = t.rdebug else { return Verdict::Inconclusive("target did not report r_debug".into()) };
             let exp = Expect {
@@ -367,7 +382,7 @@ pub fn live_strategy() -> impl Strategy<Value = LiveCase> {
         proptest::collection::vec((any::<u8>(), 0u8..8, any::<bool>()), 0..6),
         0u8..4,
         any::<bool>(),
-        proptest::bool::weighted(0.3),
+        (proptest::bool::weighted(0.3), proptest::bool::weighted(0.25)),
         prop_oneof![
             3 => Just(AuxvMode::Kernel),
             2 => Just(AuxvMode::TrueDirect),
@@ -375,7 +390,7 @@ pub fn live_strategy() -> impl Strategy<Value = LiveCase> {
             3 => valid_dso_strategy().prop_map(AuxvMode::Synthetic),
         ],
     )
-        .prop_map(|(argv, env, rlimits, fds, maps, parked, blamed_other, fd_churn, auxv)| LiveCase { argv, env, rlimits, fds, maps, parked, blamed_other, auxv, fd_churn })
+        .prop_map(|(argv, env, rlimits, fds, maps, parked, blamed_other, (fd_churn, leader_exit), auxv)| LiveCase { argv, env, rlimits, fds, maps, parked, blamed_other, auxv, fd_churn, leader_exit })
 }
 
 pub fn run(ctx: &mut LaneCtx) {
@@ -384,7 +399,7 @@ pub fn run(ctx: &mut LaneCtx) {
         SubSpec {
             name: "live-os-streams",
             cases: (800, 25_000),
-            rule: "generated targets: argv 0..20 (empty, non-UTF-8, long), environment 0..50 variables, changed rlimits, 0..60 descriptors of 7 kinds, shared/private mappings of all permissions, blamed thread main/other; auxv mode {kernel, true direct, direct with some values zero, direct values leading to a synthetic linker list in the target}; oracle as in assumptions; non-trivial = >=10 descriptors of >=3 kinds, or synthetic chain, or partially zero direct auxv; distinct = hash of case",
+            rule: "generated targets: argv 0..20 (empty, non-UTF-8, long), environment 0..50 variables, changed rlimits, 0..60 descriptors of 7 kinds, shared/private mappings of all permissions, blamed thread main/other, optionally a thread-group leader that has exited on its own (zombie leader, dump blamed on a live thread); auxv mode {kernel, true direct, direct with some values zero, direct values leading to a synthetic linker list in the target}; oracle as in assumptions; non-trivial = >=10 descriptors of >=3 kinds, or synthetic chain, or partially zero direct auxv; distinct = hash of case",
             strategy: live_strategy().boxed(),
             max_shrink_iters: 150,
             log_current: true,
